@@ -5,6 +5,7 @@ mod c04;
 mod c06;
 mod c07;
 mod c11;
+mod c12;
 mod c13;
 mod c16;
 mod c18;
@@ -31,6 +32,7 @@ fn main() {
         "c04" => c04::run(&args, "C04"),
         "c20" => c04::run(&args, "C20"),
         "c11" => c11::run(&args),
+        "c12" => c12::run(&args),
         "c13" => c13::run(&args),
         "c13-one" => {
             c13::run_one(&args);
